@@ -2,6 +2,7 @@ package checks
 
 import (
 	"fmt"
+	"time"
 
 	"github.com/vx-labs/mqtt-protocol/packet"
 	"github.com/vx-labs/wasp/v4/wasp/distributed"
@@ -18,7 +19,7 @@ func init() {
 }
 
 func runC10(c *fw.Ctx) {
-	c.Rule = "seeded pairs of node histories: two nodes issue 10-50 real mutator calls (incl. bulk removals) while each gossip broadcast between them is delivered or lost forever with a per-scenario loss rate (0..100%); then LocalState/MergeRemoteState is exercised A->B, B->A, both ways and into a fresh node. A per-node reference LWW map (tombstones included) is maintained from the broadcast entries each node issued or received; after A->B the listing of B must equal the visible part of merge(ref(A), ref(B)); a fresh node must list exactly what A lists; after both directions A and B list the same. Plus retained-message histories under clocks that advance only every 2-4 calls (the two nodes' clocks never coincide), partly lost gossip, exchange in both directions: both nodes list the same. distinct = (scenario calls, loss pattern, exchange kind); non-trivial = the sender holds >=2 entries of one kind or a removal the receiver never saw"
+	c.Rule = "seeded pairs of node histories: two nodes issue 10-50 real mutator calls (incl. bulk removals) while each gossip broadcast between them is delivered or lost forever with a per-scenario loss rate (0..100%); then LocalState/MergeRemoteState is exercised A->B, B->A, both ways and into a fresh node (in a fifth of the scenarios nine clock hours after the last change). A per-node reference LWW map (tombstones included) is maintained from the broadcast entries each node issued or received; after A->B the listing of B must equal the visible part of merge(ref(A), ref(B)); a fresh node must list exactly what A lists; after both directions A and B list the same. Plus retained-message histories under clocks that advance only every 2-4 calls (the two nodes' clocks never coincide), partly lost gossip, exchange in both directions: both nodes list the same. distinct = (scenario calls, loss pattern, exchange kind); non-trivial = the sender holds >=2 entries of one kind or a removal the receiver never saw"
 	c.Assume("a node's own entries are taken from the broadcasts it queued (C09 establishes that they describe its local changes)")
 	c.Assume("timestamps distinct per key (scenarios with an exact tie on a key are counted and skipped)")
 	n := c.Pick(6000, 60000)
@@ -91,6 +92,12 @@ func runC10(c *fw.Ctx) {
 			a, b = 1, 0
 		}
 		kindName := []string{"A->B", "B->A", "both", "A->fresh"}[kind]
+		if s%5 == 2 {
+			// the exchange happens long after the last change (a partition that lasted nine hours)
+			w.tick += int64(9 * time.Hour)
+			kindName += " (9 h later)"
+			c.Observe("exchanges_after_nine_hours", 1)
+		}
 		snap := w.nodes[a].S.Distributor().LocalState(false)
 		c.Observe("snapshot_bytes", len(snap))
 		switch kind {
